@@ -20,9 +20,9 @@ PLACEMENT = {"CJJ14.PiPtr": "same-key", "CJJ14.Pi2Lev": "same-key", "CGKO06.SSE1
 
 
 def plan(tier, seed):
-    specs = sse.scheme_shards(tier, per_scheme_quick=2, per_scheme_thorough=3, budget_quick=12, budget_thorough=240,
+    specs = sse.scheme_shards(tier, per_scheme_quick=2, per_scheme_thorough=3, budget_quick=12, budget_thorough=200,
                               schemes=gen.SORTED_TABLE_SCHEMES, extra={"part": "sorted"})
-    specs += sse.scheme_shards(tier, per_scheme_quick=1, per_scheme_thorough=3, budget_quick=12, budget_thorough=240,
+    specs += sse.scheme_shards(tier, per_scheme_quick=1, per_scheme_thorough=3, budget_quick=12, budget_thorough=200,
                                schemes=list(PLACEMENT), extra={"part": "placement"})
     for s in specs:
         s["name"] = s["part"] + "-" + s["name"]
